@@ -735,6 +735,26 @@ func (cr *caseRun) build() {
 					}
 				}
 			}
+		case "singleout", "singleout0":
+			// SingleOutputChan sends at once (like a relaxed mailbox). "singleout0": nobody ever
+			// receives, so every write is refused by the resource itself after its timeout.
+			n := 4096
+			if rs.Impl == "singleout0" {
+				n = 0
+			}
+			ch := make(chan tla.Value, n)
+			bind(p, resources.NewSingleOutputChan(ch))
+			in.drain = func(int, bool) ([]int, bool) {
+				got := []int{}
+				for {
+					select {
+					case v := <-ch:
+						got = append(got, fromVal(v)...)
+					default:
+						return got, true
+					}
+				}
+			}
 		case "tcpin", "tcpout", "rlxin", "rlxout":
 			if np == nil {
 				np = mkNet(strings.HasPrefix(rs.Impl, "rlx"))
@@ -1047,7 +1067,7 @@ func (cr *caseRun) body(iface distsys.ArchetypeInterface) error {
 	return iface.Goto("A.step")
 }
 
-func (cr *caseRun) run() {
+func (cr *caseRun) runOnce() {
 	var err error
 	cr.dir, err = os.MkdirTemp("", "c01case.")
 	if err != nil {
@@ -1131,9 +1151,30 @@ func (cr *caseRun) run() {
 				cr.emit(rec{"e": "setup", "msg": fmt.Sprint(p)})
 			}
 		}
-	case <-time.After(180 * time.Second):
+	case <-time.After(600 * time.Second):
 		cr.timeouts++
-		cr.emit(rec{"e": "watchdog", "what": "case did not finish within 180 s", "pos": cr.pos})
+		cr.emit(rec{"e": "watchdog", "what": "case did not finish within 600 s", "pos": cr.pos})
+	}
+}
+
+// runCase executes the case; a case whose set-up failed (a port taken by another process, ...)
+// is set up again, a few times, before it is reported as not executed.
+func runCase(c Case) []rec {
+	for try := 0; ; try++ {
+		cr := &caseRun{c: c}
+		cr.runOnce()
+		failed := false
+		for _, e := range cr.ev {
+			if e["e"] == "setup" {
+				failed = true
+			}
+		}
+		if !failed || try >= 2 {
+			cr.mu.Lock()
+			defer cr.mu.Unlock()
+			return append([]rec{}, cr.ev...)
+		}
+		time.Sleep(200 * time.Millisecond)
 	}
 }
 
@@ -1163,18 +1204,17 @@ func main() {
 	}
 	fh.Close()
 
-	runs := make([]*caseRun, len(cases))
+	evs := make([][]rec, len(cases))
 	sem := make(chan struct{}, *par)
 	var wg sync.WaitGroup
 	for i := range cases {
-		runs[i] = &caseRun{c: cases[i]}
 		wg.Add(1)
 		sem <- struct{}{}
-		go func(cr *caseRun) {
+		go func(i int) {
 			defer wg.Done()
 			defer func() { <-sem }()
-			cr.run()
-		}(runs[i])
+			evs[i] = runCase(cases[i])
+		}(i)
 	}
 	wg.Wait()
 
@@ -1183,8 +1223,8 @@ func main() {
 		panic(err)
 	}
 	w := bufio.NewWriter(oh)
-	for _, cr := range runs {
-		for _, e := range cr.ev {
+	for _, ev := range evs {
+		for _, e := range ev {
 			b, err := json.Marshal(e)
 			if err != nil {
 				panic(err)
